@@ -41,6 +41,11 @@ pub fn exercise_zone(zr: TimeZoneRef<'_>, budget: usize) {
         }
     }
     let types = zr.local_time_types();
+    for t in types.iter().take(300) {
+        let _ = (t.time_zone_designation().len(), t.ut_offset(), t.is_dst());
+        let _ = format!("{t:?}");
+    }
+    let _ = format!("{:?}", zr.extra_rule());
     let mut buf = [None; 3];
     for &u in &instants {
         let _ = zr.find_local_time_type(u);
@@ -72,7 +77,15 @@ pub fn exercise_zone(zr: TimeZoneRef<'_>, budget: usize) {
             let _ = ud.to_string();
         }
     }
-    for y in [i32::MIN, i32::MIN + 1, i32::MIN + 2, -1, 0, 1970, i32::MAX - 2, i32::MAX - 1, i32::MAX] {
+    for y in [i32::MIN, i32::MIN + 1, i32::MIN + 2, i32::MIN + 3, i32::MAX - 3, i32::MAX - 2, i32::MAX - 1, i32::MAX] {
+        for (mo, d) in [(1u8, 1u8), (1, 9), (6, 30), (12, 23), (12, 31)] {
+            if let Ok(x) = UtcDateTime::new(y, mo, d, 12, 0, 0, 0) {
+                let _ = zr.find_local_time_type(x.unix_time());
+                let _ = DateTime::from_timespec(x.unix_time(), 0, zr);
+            }
+        }
+    }
+    for y in [i32::MIN, i32::MIN + 1, i32::MIN + 2, i32::MIN + 3, -1, 0, 1970, i32::MAX - 3, i32::MAX - 2, i32::MAX - 1, i32::MAX] {
         let _ = DateTime::find(y, 1, 1, 0, 0, 0, 0, zr);
         let _ = DateTime::find(y, 12, 31, 23, 59, 60, 999_999_999, zr);
         let _ = DateTime::find_n(&mut buf[..1], y, 6, 15, 12, 0, 0, 0, zr);
